@@ -58,6 +58,9 @@ var wzAliases = [...]*Basic{
 
 func wzDefPredeclaredTypes() {
 	for _, t := range Typ {
+		if t.kind == UnsafePointer {
+			continue // 只能通过 洪荒·指针 访问
+		}
 		wzDef(NewTypeName(token.NoPos, nil, t.name, t))
 	}
 	for _, t := range wzAliases {
